@@ -81,6 +81,7 @@ func (d *dumper) tid(t types.Type) int {
 	if t == nil {
 		return -1
 	}
+	t = types.Unalias(t)
 	key := typeKey(t)
 	if v, ok := d.types[key]; ok {
 		return v
